@@ -15,10 +15,12 @@ import NeumannModel.TwoPC.LemmasOps
   number of times in any order (or never: duplication / reordering / delay / loss), coordinator
   timeout sweeps and clock ticks at any point, coordinator commit / abort calls at any point, late /
   duplicate votes, and forged / mis-tagged votes (`Ev.forge`: any NO / CONFLICT vote, any YES vote
-  tagged with a shard that is not a participant).  Outside the alphabet (see DESIGN §7 C03):
-  participant-side `cleanup_stale` / `recover`, participant lock expiry, and workloads that break the
-  lock discipline (`lockDiscipline`: two transactions reach the same storage key under different
-  logical keys) — the `…_outside_quantifier_witness` theorems show what they break.
+  tagged with a shard that is not a participant).  No restriction on the workload: since 3e4ef1c8 the
+  participant locks the logical, the storage and the write key of every operation, so transactions that
+  reach one storage key under different logical keys are refused by the lock table (the `…_old_…witness`
+  theorems show what the code did before its two repairs 3e4ef1c8 and f07ecb9a).  Outside the alphabet
+  (see DESIGN §7 C03): participant-side `cleanup_stale` / `recover` and participant lock expiry — the
+  `…_outside_quantifier_witness` theorems show what they break.
 -/
 namespace Neumann.TwoPC.Props
 open Neumann.TwoPC
@@ -87,11 +89,13 @@ theorem applied_implies_no_yes_voter_discards (stores : List Store) (tt mc lt : 
     strongest step form: EVERY event of the alphabet other than the delivery of a commit message
     (so: every abort delivery — first, duplicate or late —, every timeout sweep, coordinator abort,
     prepare, vote, begin, tick) leaves every key of every shard unchanged. -/
+/- (No assumption on the workload: the operations of the transactions are arbitrary — see
+   `storage_key_alias_is_refused` below for what keeps alias transactions apart.) -/
 theorem abort_restores_shard (stores : List Store) (tt mc lt : Nat) {s : Sys}
     (hr : Reach (Sys.init stores tt mc lt) s) (e : Ev) (ha : s.inAlphabet e = true)
     (hne : ∀ i tx sh, e = .deliver i → s.msgs[i]? ≠ some (Msg.commit tx sh)) :
     ∀ sh k, sget ((s.step e).storeOf sh) k = sget (s.storeOf sh) k :=
-  ((sinv_of_reach hr).1.step (sinv_of_reach hr).2 e ha).2 hne
+  ((sinv_of_reach hr).step e ha).2 hne
 
 /-- … and over any stretch of execution without a commit delivery. -/
 theorem abort_restores_shard_run (stores : List Store) (tt mc lt : Nat) {s : Sys}
@@ -182,7 +186,8 @@ example : (demoInit.run (demoRun.take 13)).msgs[10]? = some (Msg.abort 1 1) := b
     * touches no other participant and no data;
     * never changes the lock (holder AND handle) of any key held by another transaction;
     * never changes another transaction's prepared record;
-    * if one of its keys is held by another transaction it is answered CONFLICT naming another
+    * if one of the keys of its lock set (logical, storage or write key of one of its operations) is
+      held by another transaction it is answered CONFLICT naming another
       transaction and the participant is left exactly as it was — no prepared record for `t`, so a
       later ABORT(t) finds nothing to apply (`abort t` is the identity);
     * and whatever happens afterwards (also when the keys were free and `t` was re-prepared): in every
@@ -198,7 +203,7 @@ theorem late_prepare_of_finished_tx_harmless (stores : List Store) (tt mc lt : N
       p'.store = p.store ∧
       (∀ k l, findLock p.locks.locks k = some l → l.tx ≠ t → findLock p'.locks.locks k = some l) ∧
       (∀ t', t' ≠ t → findPrepared p'.prepared t' = findPrepared p.prepared t') ∧
-      ((∃ op ∈ ops, ∃ l, findLock p.locks.locks op.key = some l ∧ l.tx ≠ t) →
+      ((∃ k ∈ lockKeys ops, ∃ l, findLock p.locks.locks k = some l ∧ l.tx ≠ t) →
         p' = p ∧ findPrepared p'.prepared t = none ∧ p'.abort t = (p', false) ∧
         ∃ c, c ≠ t ∧ (s.step (.deliver i)).msgs = s.msgs ++ [Msg.vote t sh (.conflict c)]) ∧
       (∀ s'', Reach (s.step (.deliver i)) s'' →
@@ -206,7 +211,7 @@ theorem late_prepare_of_finished_tx_harmless (stores : List Store) (tt mc lt : N
           ∀ sh2 k, sget ((s''.step (.deliver j)).storeOf sh2) k = sget (s''.storeOf sh2) k) ∧
         (∀ sh' to sh2 k, sget ((s''.step (.cleanupStale sh' to)).storeOf sh2) k = sget (s''.storeOf sh2) k) ∧
         (∀ sh' to sh2 k, sget ((s''.step (.recover sh' to)).storeOf sh2) k = sget (s''.storeOf sh2) k)) := by
-  have hS := (sinv_of_reach hr).1
+  have hS := sinv_of_reach hr
   have hP := hS p (List.mem_of_getElem? hp)
   obtain ⟨hparts, hmsgs⟩ := step_deliver_prepare hm hp
   obtain ⟨h1, h2, h3, h4⟩ := prepare_respects_others hP t ops
@@ -222,8 +227,8 @@ theorem late_prepare_of_finished_tx_harmless (stores : List Store) (tt mc lt : N
     exact ⟨rfl, hnone, abort_absent hnone, c, hc, hmsgs⟩
   · intro s'' hr''
     have hr2 : Reach (Sys.init stores tt mc lt) s'' := (Reach.step (.deliver i) hr rfl).trans hr''
-    refine ⟨?_, cleanupStale_keeps_data (sinv_of_reach hr2).1,
-      recover_keeps_data (sinv_of_reach hr2).1⟩
+    refine ⟨?_, cleanupStale_keeps_data (sinv_of_reach hr2),
+      recover_keeps_data (sinv_of_reach hr2)⟩
     intro j tx' sh' hj
     apply abort_restores_shard stores tt mc lt hr2 (.deliver j) rfl
     intro i' tx2 sh2 he hm2
@@ -301,18 +306,19 @@ theorem late_prepare_breaks_tryLockNoConflictCheckForKnownTx_witness :
 /-! ### locks: what keeps concurrent transactions on overlapping keys apart -/
 
 /-- In every reachable state every prepared transaction holds, under its own handle, the lock of the
-    logical key of each of its operations (so two transactions prepared on the same participant never
-    share a logical key). -/
+    logical key, of the storage key (undo image) and of the write key of each of its operations. -/
 theorem prepared_tx_holds_its_locks (stores : List Store) (tt mc lt : Nat) {s : Sys}
     (hr : Reach (Sys.init stores tt mc lt) s) (p : Participant) (hp : p ∈ s.parts)
-    (pt : PreparedTx) (hpt : pt ∈ p.prepared) (op : Op) (hop : op ∈ pt.ops) :
-    ∃ l, findLock p.locks.locks op.key = some l ∧ l.tx = pt.tx ∧ l.handle = pt.handle :=
-  ((sinv_of_reach hr).1 p hp).held pt hpt op hop
+    (pt : PreparedTx) (hpt : pt ∈ p.prepared) (op : Op) (hop : op ∈ pt.ops) (k : Nat)
+    (hk : k = op.key ∨ k = op.undoKey ∨ k = op.writeKey) :
+    ∃ l, findLock p.locks.locks k = some l ∧ l.tx = pt.tx ∧ l.handle = pt.handle :=
+  ((sinv_of_reach hr) p hp).held pt hpt k (mem_lockKeys.2 ⟨op, hop, hk⟩)
 
 /-- A PREPARE — first, duplicate or late, of a live or of a finished transaction — never changes the
     lock (holder and handle) of a key held by another transaction, never touches another transaction's
     prepared record or any data, and is answered CONFLICT with the participant left exactly as it was
-    when one of its logical keys is held by another transaction. -/
+    when the logical, the storage or the write key of one of its operations is held by another
+    transaction. -/
 theorem prepare_never_moves_foreign_lock (stores : List Store) (tt mc lt : Nat) {s : Sys}
     (hr : Reach (Sys.init stores tt mc lt) s) (p : Participant) (hp : p ∈ s.parts)
     (tx : Nat) (ops : List Op) :
@@ -320,12 +326,47 @@ theorem prepare_never_moves_foreign_lock (stores : List Store) (tt mc lt : Nat) 
     r.1.store = p.store ∧
     (∀ k l, findLock p.locks.locks k = some l → l.tx ≠ tx → findLock r.1.locks.locks k = some l) ∧
     (∀ t', t' ≠ tx → findPrepared r.1.prepared t' = findPrepared p.prepared t') ∧
-    ((∃ op ∈ ops, ∃ l, findLock p.locks.locks op.key = some l ∧ l.tx ≠ tx) →
-      ∃ c, c ≠ tx ∧ r = (p, .conflict c)) :=
-  prepare_respects_others ((sinv_of_reach hr).1 p hp) tx ops
+    ((∃ op ∈ ops, ∃ k, (k = op.key ∨ k = op.undoKey ∨ k = op.writeKey) ∧
+        ∃ l, findLock p.locks.locks k = some l ∧ l.tx ≠ tx) →
+      ∃ c, c ≠ tx ∧ r = (p, .conflict c)) := by
+  obtain ⟨h1, h2, h3, h4⟩ := prepare_respects_others ((sinv_of_reach hr) p hp) tx ops
+  refine ⟨h1, h2, h3, ?_⟩
+  rintro ⟨op, hop, k, hk, l, hl, hne⟩
+  exact h4 ⟨k, mem_lockKeys.2 ⟨op, hop, hk⟩, l, hl, hne⟩
 
-/-- Workloads of Put / Delete / CompareAndSwap operations keep the lock discipline by construction
-    (logical key = storage key): for them the restriction on `begin` in the alphabet is vacuous. -/
+/-- What 3e4ef1c8 makes true, for EVERY workload: transactions that reach one storage key under different
+    logical keys are kept apart by the participant.  In every reachable state, if `pt` is prepared on a
+    participant and a PREPARE of another transaction carries an operation `op'` one of whose keys
+    (logical, storage, write) is a key (logical, storage, write) of an operation of `pt` — in particular
+    `op'` writes the storage key `pt` holds an undo image of (`Put{"emb:x"}` vs `Embed{x}`), or captures
+    the undo image of a key `pt` will write — then that PREPARE is answered CONFLICT naming another
+    transaction and leaves the participant (locks, prepared records, data) exactly as it was. -/
+theorem storage_key_alias_is_refused (stores : List Store) (tt mc lt : Nat) {s : Sys}
+    (hr : Reach (Sys.init stores tt mc lt) s) (p : Participant) (hp : p ∈ s.parts)
+    (pt : PreparedTx) (hpt : pt ∈ p.prepared) (tx : Nat) (hne : tx ≠ pt.tx) (ops : List Op)
+    (op : Op) (hop : op ∈ pt.ops) (op' : Op) (hop' : op' ∈ ops) (k : Nat)
+    (hk : k = op.key ∨ k = op.undoKey ∨ k = op.writeKey)
+    (hk' : k = op'.key ∨ k = op'.undoKey ∨ k = op'.writeKey) :
+    ∃ c, c ≠ tx ∧ p.prepare s.now s.nextHandle tx ops = (p, .conflict c) := by
+  have hP := (sinv_of_reach hr) p hp
+  obtain ⟨l, hl, htx, _⟩ := hP.held pt hpt k (mem_lockKeys.2 ⟨op, hop, hk⟩)
+  exact (prepare_respects_others hP tx ops).2.2.2
+    ⟨k, mem_lockKeys.2 ⟨op', hop', hk'⟩, l, hl, by rw [htx]; exact fun e => hne e.symm⟩
+
+/-- … hence two transactions prepared on one participant at the same time never share a logical,
+    storage or write key: no prepared transaction holds an undo image of a key another prepared
+    transaction will write. -/
+theorem prepared_txs_touch_disjoint_keys (stores : List Store) (tt mc lt : Nat) {s : Sys}
+    (hr : Reach (Sys.init stores tt mc lt) s) (p : Participant) (hp : p ∈ s.parts)
+    (pt pt' : PreparedTx) (hpt : pt ∈ p.prepared) (hpt' : pt' ∈ p.prepared)
+    (op : Op) (hop : op ∈ pt.ops) (op' : Op) (hop' : op' ∈ pt'.ops) (k : Nat)
+    (hk : k = op.key ∨ k = op.undoKey ∨ k = op.writeKey)
+    (hk' : k = op'.key ∨ k = op'.undoKey ∨ k = op'.writeKey) : pt.tx = pt'.tx :=
+  ((sinv_of_reach hr) p hp).disjoint hpt hpt' (mem_lockKeys.2 ⟨op, hop, hk⟩) (mem_lockKeys.2 ⟨op', hop', hk'⟩)
+
+/-- Workloads of Put / Delete / CompareAndSwap operations keep the OLD lock discipline by construction
+    (logical key = storage key = write key): for them the lock set of the code before 3e4ef1c8 was
+    already sufficient (the defect needed one of the prefixed kinds). -/
 theorem lock_discipline_of_plain_ops (ops : List Op) (h : ∀ op ∈ ops, op.isPlain = true) :
     lockDiscipline ops = true := by
   apply (lockDiscipline_iff ops).2
@@ -334,8 +375,8 @@ theorem lock_discipline_of_plain_ops (ops : List Op) (h : ∀ op ∈ ops, op.isP
   have h2 := h b hb
   cases a <;> cases b <;> simp_all [Op.isPlain, Op.writeKey, Op.undoKey, Op.key]
 
-/-! non-vacuity: a mixed-kind workload (Embed, TableUpdate, CompareAndSwap, NodeCreate, EdgeCreate) that
-    keeps the discipline, with forged votes in the schedule: tx 0 commits on both shards although a
+/-! non-vacuity: a mixed-kind workload (Embed, TableUpdate, CompareAndSwap, NodeCreate, EdgeCreate),
+    with forged votes in the schedule: tx 0 commits on both shards although a
     stray YES tagged with shard 5, a forged NO for the not-yet-begun tx 1 and a late forged CONFLICT
     were delivered; tx 1 is aborted by a forged NO and changes nothing. -/
 
@@ -365,38 +406,67 @@ example : sget ((mixedInit.run mixedRun).storeOf 0) (embK 1) = some (.vec 7) ∧
     sget ((mixedInit.run mixedRun).storeOf 1) (nodeK 2) = some (.node 4) ∧
     sget ((mixedInit.run mixedRun).storeOf 1) (edgeK 2 3 1) = some .edge ∧
     sget ((mixedInit.run mixedRun).storeOf 1) 2 = some 6 := by decide
--- the hypothesis of `lock_discipline_of_plain_ops` holds of a real workload, and the mixed-kind workload above keeps the discipline too
+-- the hypothesis of `lock_discipline_of_plain_ops` holds of a real workload
 example : ∀ op ∈ [Op.put 1 2, .cas 1 none 3, .del 1], op.isPlain = true := by decide
-example : lockDiscipline (allOps (mixedInit.run mixedRun).specs) = true := by decide
+-- the lock set: Embed locks k1 and "emb:k1", TableUpdate the table name, "table:3" and the row key, CAS only k1
+example : ((mixedInit.run (mixedRun.take 5)).parts[0]?.map (fun p => p.locks.txLocks)) =
+    some [(0, [1, 3, 1, embK 1, tableK 3, rowK 3 2])] := by decide
 -- `prepared_tx_holds_its_locks` / `prepare_never_moves_foreign_lock` are not vacuous: after 15 events tx 1 is prepared on shard 0
 example : ((mixedInit.run (mixedRun.take 15)).parts[0]?.map (fun p => p.prepared.map (·.tx))) = some [1] := by decide
 
-/-- WITHOUT the lock discipline `abort_restores_shard` is false of the code as it is.  T0 = `Embed{k1}`
-    and T1 = `Put{"emb:k1"}` reach the same storage key under different logical keys (`k1` resp.
-    `"emb:k1"`), so both are prepared on shard 0 at the same time; T0's undo image of `"emb:k1"` is
-    "absent".  T1 is decided commit and applied on both shards; T0 times out and its ABORT deletes
-    `"emb:k1"`: an aborted transaction changed the shard, a committed write is lost, and shard 1 still
-    holds T1's other write (split).  Every event of the run is in the alphabet except the second
-    `begin`, which breaks the discipline. -/
-theorem abort_restores_shard_without_lock_discipline_witness :
-    let init := Sys.init [[], []] 2 100 1000
-    let b0 : Ev := .begin [0, 1] [(0, [.embed 1 7]), (1, [.put 2 8])] []
-    let b1 : Ev := .begin [0, 1] [(0, [.put (embK 1) 9]), (1, [.put 3 10])] []
-    let rest : List Ev := [ .deliver 0, .deliver 2, .deliver 3, .deliver 5, .deliver 6, .coordCommit 1,
-                            .deliver 7, .deliver 8, .tick 3, .sweep ]
-    let s1 := init.step b0
-    let s2 := s1.step b1
-    let s := s2.run rest
-    init.inAlphabet b0 = true ∧ s1.inAlphabet b1 = false ∧ s2.allIn rest = true ∧
-    -- both transactions were prepared on shard 0 together, under different logical keys
-    (s2.run (rest.take 2)).parts[0]?.map (fun p => p.locks.locks.map (fun l => (l.key, l.tx))) =
+/-! the alias history: T0 = `Embed{k1}` and T1 = `Put{"emb:k1"}` reach the storage key `"emb:k1"` under
+    the logical keys `k1` resp. `"emb:k1"`; T1 would commit, T0 times out. -/
+
+def aliasInit : Sys := Sys.init [[], []] 2 100 1000
+
+def aliasRun : List Ev :=
+  [ .begin [0, 1] [(0, [.embed 1 7]), (1, [.put 2 8])] [],          -- msgs 0,1 = PREPARE(T0)
+    .begin [0, 1] [(0, [.put (embK 1) 9]), (1, [.put 3 10])] [],     -- msgs 2,3 = PREPARE(T1)
+    .deliver 0, .deliver 2,            -- shard 0: T0 prepared (4 = YES), then PREPARE(T1) (5 = its answer)
+    .deliver 3, .deliver 5, .deliver 6,-- shard 1 prepares T1 (6 = YES); T1's two votes reach the coordinator
+    .coordCommit 1, .deliver 7, .deliver 8,
+    .tick 3, .sweep ]
+
+/-- BEFORE 3e4ef1c8 (`prepareOld`: only `affected_key()` is locked, `Sys.runOld`) `abort_restores_shard`
+    was false: T0 and T1 are prepared on shard 0 at the same time under different logical keys; T0's
+    undo image of `"emb:k1"` is "absent".  T1 is decided commit and applied on both shards; T0 times out
+    and its ABORT deletes `"emb:k1"`: an aborted transaction changed the shard, a committed write is
+    lost, and shard 1 still holds T1's other write (split).  Every event of the run is in the alphabet.
+    On the code as it is (`Sys.run`) the same events go: PREPARE(T1) is answered CONFLICT(T0) on shard 0
+    (T0 holds `"emb:k1"`), T1 is aborted, the commit call is refused, and no shard ever changes. -/
+theorem abort_undoes_commit_via_storage_key_alias_old_lock_set_witness :
+    let old := aliasInit.runOld aliasRun
+    let new := aliasInit.run aliasRun
+    aliasInit.allIn aliasRun = true ∧
+    -- old lock set: both transactions prepared on shard 0 together, under different logical keys
+    (aliasInit.runOld (aliasRun.take 4)).parts[0]?.map (fun p => p.locks.locks.map (fun l => (l.key, l.tx))) =
       some [(embK 1, 1), (1, 0)] ∧
-    s.decided = [(1, true), (0, false)] ∧ s.applied = [(0, 1), (1, 1)] ∧
-    s.msgs[9]? = some (Msg.abort 0 0) ∧ s.inAlphabet (.deliver 9) = true ∧
-    sget (s.storeOf 0) (embK 1) = some 9 ∧ sget (s.storeOf 1) 3 = some 10 ∧
-    sget ((s.step (.deliver 9)).storeOf 0) (embK 1) = none ∧
-    sget ((s.step (.deliver 9)).storeOf 1) 3 = some 10 := by
+    old.decided = [(1, true), (0, false)] ∧ old.applied = [(0, 1), (1, 1)] ∧
+    old.msgs[9]? = some (Msg.abort 0 0) ∧ old.inAlphabet (.deliver 9) = true ∧
+    sget (old.storeOf 0) (embK 1) = some 9 ∧ sget (old.storeOf 1) 3 = some 10 ∧
+    sget ((old.stepOld (.deliver 9)).storeOf 0) (embK 1) = none ∧
+    sget ((old.stepOld (.deliver 9)).storeOf 1) 3 = some 10 ∧
+    -- the code as it is: T0 holds k1 AND "emb:k1"; PREPARE(T1) is refused; T1 aborts; nothing is written
+    (aliasInit.run (aliasRun.take 3)).parts[0]?.map (fun p => p.locks.locks.map (fun l => (l.key, l.tx))) =
+      some [(embK 1, 0), (1, 0)] ∧
+    (aliasInit.run (aliasRun.take 4)).msgs[5]? = some (Msg.vote 1 0 (.conflict 0)) ∧
+    new.decided = [(1, false), (0, false), (1, false)] ∧ new.applied = [] ∧
+    new.msgs[9]? = some (Msg.abort 0 0) ∧
+    (∀ sh ∈ [0, 1], ∀ k ∈ [1, 2, 3, embK 1], sget ((new.step (.deliver 9)).storeOf sh) k = none) := by
   decide
+
+-- `storage_key_alias_is_refused` is not vacuous: after 3 events of the alias history T0 is prepared on
+-- shard 0 and the PREPARE of T1 (tx 1 ≠ 0) carries `Put{"emb:k1"}`, whose write key is T0's storage key
+example : Reach aliasInit (aliasInit.run (aliasRun.take 3)) := reach_run .refl _ (by decide)
+example : ((aliasInit.run (aliasRun.take 3)).parts[0]?.map (fun p => p.prepared.map (fun pt => (pt.tx, pt.ops)))) =
+    some [(0, [.embed 1 7])] := by decide
+example : (Op.put (embK 1) 9).writeKey = (Op.embed 1 7).undoKey := by decide
+example : (aliasInit.run (aliasRun.take 3)).msgs[2]? = some (Msg.prepare 1 0 [.put (embK 1) 9]) := by decide
+-- `prepared_txs_touch_disjoint_keys` with two records: both transactions of `mixedRun`'s shard 0 … (tx 0
+-- committed there before tx 1 prepared); a state with two records at once:
+example : (((Sys.init [[], []] 2 100 1000).run
+    [ .begin [0] [(0, [.embed 1 7])] [], .begin [0] [(0, [.embed 2 7])] [], .deliver 0, .deliver 1 ]).parts[0]?.map
+      (fun p => p.prepared.map (·.tx))) = some [1, 0] := by decide
 
 /-! ### `record_vote` is two critical sections (VoteSplit.lean) -/
 
@@ -411,60 +481,106 @@ theorem record_vote_is_its_two_critical_sections (c : Coordinator) (tx sh : Nat)
       | .ok (.check c' snap) => .ok (c'.recordVoteP3 tx snap f) :=
   recordVote_eq_phases c tx sh v f
 
-/-- Phase 3b of the code does not look at the phase it overwrites: whatever happened to the transaction
-    between the two critical sections (as long as it is still pending), an orthogonal snapshot makes
-    it `Prepared`, i.e. committable. -/
-theorem record_vote_phase3_overwrites_any_phase (c : Coordinator) (tx : Nat) (snap t : DTx)
+/-- Phase 3 of the code (since f07ecb9a) leaves a transaction that is gone or no longer `Preparing`
+    exactly as it is — whatever happened between the two critical sections, whatever the snapshot and
+    the similarity outcome: no phase change, nothing queued, `Ok(None)`. -/
+theorem record_vote_phase3_keeps_decided_phase (c : Coordinator) (tx : Nat) (snap : DTx)
+    (f : Nat → Nat → Bool) (hp : ∀ t, findTx c.pending tx = some t → t.phase ≠ .preparing) :
+    c.recordVoteP3 tx snap f = (c, none) := by
+  rcases recordVoteP3_cases c tx snap f with h | ⟨t, hf, hph, _⟩
+  · exact h
+  · exact absurd hph (hp t hf)
+
+/-- … and when it does change something, the transaction is `Preparing` NOW and becomes `Prepared`
+    (nothing queued) or `Aborting` (exactly one abort broadcast queued); no other entry changes. -/
+theorem record_vote_phase3_moves_only_preparing (c : Coordinator) (tx : Nat) (snap : DTx)
+    (f : Nat → Nat → Bool) (hne : c.recordVoteP3 tx snap f ≠ (c, none)) :
+    ∃ t, findTx c.pending tx = some t ∧ t.phase = .preparing ∧
+      ((c.recordVoteP3 tx snap f) = ({ c with pending := setPhase c.pending tx .prepared }, some .prepared) ∨
+       (c.recordVoteP3 tx snap f) =
+          ({ c with pending := setPhase c.pending tx .aborting,
+                    pendingAborts := c.pendingAborts ++ [(tx, .crossShard, snap.participants)] }, some .aborting)) := by
+  rcases recordVoteP3_cases c tx snap f with h | h
+  · exact absurd h hne
+  · exact h
+
+/-- One decision under EVERY interleaving of the two critical sections.  The coordinator is shared by any
+    number of threads (`CSys`): every call (`begin`, `commit`, `abort`, `cleanup_timeouts`,
+    `take_pending_aborts`) is one event, `record_vote` is two (`voteP1`, `voteP3`), and a `voteP3` may
+    carry any snapshot and any similarity outcome and run at any later point in any order with the other
+    threads' events.  In every reachable state a transaction for which `commit()` succeeded has no
+    abort decision: no `abort()` succeeded for it and no abort broadcast was ever queued for it (drained
+    or not) — and vice versa. -/
+theorem record_vote_interleaved_phases_never_decide_twice (mc tt : Nat) {s : CSys}
+    (hr : CReach (CSys.init mc tt) s) (tx : Nat) (hc : tx ∈ s.commits) : ¬ s.abortDecided tx :=
+  ((CInv.init mc tt).reach hr).excl tx hc
+
+/-- … and the decision is stable and exclusive along every continuation. -/
+theorem record_vote_interleaved_phases_abort_excludes_commit (mc tt : Nat) {s : CSys}
+    (hr : CReach (CSys.init mc tt) s) (tx : Nat) (ha : s.abortDecided tx) : tx ∉ s.commits :=
+  fun hc => ((CInv.init mc tt).reach hr).excl tx hc ha
+
+/-- Phase 3b BEFORE f07ecb9a did not look at the phase it overwrote: whatever happened to the
+    transaction between the two critical sections (as long as it was still pending), an orthogonal
+    snapshot made it `Prepared`, i.e. committable. -/
+theorem record_vote_phase3_old_overwrites_any_phase (c : Coordinator) (tx : Nat) (snap t : DTx)
     (f : Nat → Nat → Bool) (hc : crossConflict f snap.votes = false) (hf : findTx c.pending tx = some t) :
-    c.recordVoteP3 tx snap f = ({ c with pending := setPhase c.pending tx .prepared }, some .prepared) ∧
-    findTx (c.recordVoteP3 tx snap f).1.pending tx = some { t with phase := .prepared } := by
-  have h1 : c.recordVoteP3 tx snap f = ({ c with pending := setPhase c.pending tx .prepared }, some .prepared) := by
-    simp only [Coordinator.recordVoteP3, hc, hf, Bool.false_eq_true, if_false]
+    c.recordVoteP3Old tx snap f = ({ c with pending := setPhase c.pending tx .prepared }, some .prepared) ∧
+    findTx (c.recordVoteP3Old tx snap f).1.pending tx = some { t with phase := .prepared } := by
+  have h1 : c.recordVoteP3Old tx snap f = ({ c with pending := setPhase c.pending tx .prepared }, some .prepared) := by
+    simp only [Coordinator.recordVoteP3Old, hc, hf, Bool.false_eq_true, if_false]
   rw [h1]
   exact ⟨rfl, findTx_setPhase .prepared hf⟩
 
-/-- The re-checking variant (the proposed repair) leaves a transaction that is no longer `Preparing`
-    exactly as it is. -/
-theorem record_vote_phase3_recheck_keeps_decided_phase (c : Coordinator) (tx : Nat) (snap t : DTx)
-    (f : Nat → Nat → Bool) (hf : findTx c.pending tx = some t) (hp : t.phase ≠ .preparing) :
-    c.recordVoteP3Recheck tx snap f = (c, none) := by
-  simp only [Coordinator.recordVoteP3Recheck, hf]
-  have : (t.phase != .preparing) = true := by simpa using hp
-  simp only [this, if_true]
+/-! the two-thread interleaving: thread A = the last real YES (shard 1), thread B = a stray NO tagged with
+    the non-participant shard 5, recorded between A's two critical sections -/
 
-/-- OUTSIDE the quantifier as far as the tree goes (`cluster.rs` calls `record_vote` from one loop), but
-    reachable through the `&self` API with two threads: between phase 1 and phase 3 of the last real
-    YES vote, a stray NO vote (tagged with a non-participant shard; inside the alphabet as a message)
-    is recorded by another thread — all participants have voted, not all votes are YES: phase
-    `Aborting`, ABORT broadcast queued.  Phase 3b of the first thread then overwrites `Aborting` with
-    `Prepared`, and `commit` succeeds: the transaction has an ABORT broadcast in the queue AND a
-    commit decision.  With the re-check the same interleaving leaves it `Aborting` and `commit` fails. -/
-theorem record_vote_interleaved_phases_decide_twice_outside_quantifier_witness :
-    let c0 : Coordinator := ⟨[], [], 100, 2, 0⟩
-    let f : Nat → Nat → Bool := fun _ _ => false
-    ∃ (c1 c2 c3 : Coordinator) (snap : DTx) (c4 : Coordinator),
-      (c0.begin 0 [0, 1]).toOption = some (c1, 0) ∧
-      (c1.recordVote 0 0 (.yes 0 [1]) f).toOption.map (·.1) = some c2 ∧
-      -- thread A, phase 1 of shard 1's YES: everybody voted YES, snapshot taken
-      (match c2.recordVoteP1 0 1 (.yes 1 [2]) with | .ok (.check c snap') => some (c.pending, snap'.votes) | _ => none) =
-        some (c3.pending, snap.votes) ∧
-      -- thread B, a whole `record_vote` of a stray NO in between: Aborting + queued ABORT broadcast
-      (c3.recordVote 0 5 .no f).toOption = some (c4, some Phase.aborting) ∧
-      (c4.pending.map (·.phase), c4.pendingAborts) = ([Phase.aborting], [(0, AbortReason.votedNo, [0, 1])]) ∧
-      -- thread A, phase 3: `Prepared`; the coordinator commits a transaction whose ABORT is in the queue
-      ((c4.recordVoteP3 0 snap f).1.pending.map (·.phase), (c4.recordVoteP3 0 snap f).2) =
-        ([Phase.prepared], some Phase.prepared) ∧
-      ((c4.recordVoteP3 0 snap f).1.commit 0).toOption.isSome = true ∧
-      (c4.recordVoteP3 0 snap f).1.pendingAborts = [(0, AbortReason.votedNo, [0, 1])] ∧
-      -- the repair: phase 3 leaves `Aborting` alone and the commit is refused
-      (c4.recordVoteP3Recheck 0 snap f) = (c4, none) ∧
-      ((c4.recordVoteP3Recheck 0 snap f).1.commit 0).toOption.isSome = false := by
-  refine ⟨⟨[⟨0, [0, 1], .preparing, [], 0, 2⟩], [], 100, 2, 1⟩,
-          ⟨[⟨0, [0, 1], .preparing, [(0, .yes 0 [1])], 0, 2⟩], [], 100, 2, 1⟩,
-          ⟨[⟨0, [0, 1], .preparing, [(0, .yes 0 [1]), (1, .yes 1 [2])], 0, 2⟩], [], 100, 2, 1⟩,
-          ⟨0, [0, 1], .preparing, [(0, .yes 0 [1]), (1, .yes 1 [2])], 0, 2⟩,
-          ⟨[⟨0, [0, 1], .aborting, [(0, .yes 0 [1]), (1, .yes 1 [2]), (5, .no)], 0, 2⟩], [(0, .votedNo, [0, 1])], 100, 2, 1⟩,
-          ?_⟩
+def raceSnap : DTx := ⟨0, [0, 1], .preparing, [(0, .yes 0 [1]), (1, .yes 1 [2])], 0, 2⟩
+
+def raceRun : List CEv :=
+  [ .begin 0 [0, 1], .voteP1 0 0 (.yes 0 [1]),
+    .voteP1 0 1 (.yes 1 [2]),                       -- thread A, phase 1: everybody voted YES, snapshot = `raceSnap`
+    .voteP1 0 5 .no,                                -- thread B, a whole `record_vote` (it ends in phase 1): Aborting + queued ABORT
+    .voteP3 0 raceSnap (fun _ _ => false),          -- thread A, phases 2 + 3
+    .commit 0 ]
+
+/-- BEFORE f07ecb9a (`CSys.runOld`): thread B's stray NO between thread A's two critical sections moves
+    the transaction to `Aborting` and queues the abort broadcast; phase 3b of thread A then overwrites
+    `Aborting` with `Prepared`, and `commit` succeeds: the transaction has an ABORT broadcast in the
+    queue AND a commit decision.  On the code as it is (`CSys.run`) the same events leave it `Aborting`,
+    phase 3 returns `None` and the commit is refused.  (`raceSnap` is the snapshot phase 1 really took.) -/
+theorem record_vote_interleaved_phases_decide_twice_old_witness :
+    let c2 := ((CSys.init 100 2).run (raceRun.take 2)).c
+    let old := (CSys.init 100 2).runOld raceRun
+    let new := (CSys.init 100 2).run raceRun
+    (match c2.recordVoteP1 0 1 (.yes 1 [2]) with | .ok (.check _ snap) => some snap | _ => none) = some raceSnap ∧
+    -- after thread B: Aborting, ABORT broadcast queued (old and new agree up to here)
+    (((CSys.init 100 2).runOld (raceRun.take 4)).c.pending.map (·.phase),
+      ((CSys.init 100 2).runOld (raceRun.take 4)).c.pendingAborts) =
+        ([Phase.aborting], [(0, AbortReason.votedNo, [0, 1])]) ∧
+    ((CSys.init 100 2).run (raceRun.take 4)).c = ((CSys.init 100 2).runOld (raceRun.take 4)).c ∧
+    -- old: phase 3 says `Prepared`, the commit succeeds, both decisions exist
+    (((CSys.init 100 2).runOld (raceRun.take 4)).c.recordVoteP3Old 0 raceSnap (fun _ _ => false)).2 = some Phase.prepared ∧
+    (((CSys.init 100 2).runOld (raceRun.take 5)).c.pending.map (·.phase)) = [Phase.prepared] ∧
+    old.commits = [0] ∧ old.abortDecided 0 ∧
+    -- the code as it is: phase 3 leaves `Aborting` alone, the commit is refused, one decision
+    (((CSys.init 100 2).run (raceRun.take 4)).c.recordVoteP3 0 raceSnap (fun _ _ => false)).2 = none ∧
+    (((CSys.init 100 2).run (raceRun.take 5)).c.pending.map (·.phase)) = [Phase.aborting] ∧
+    new.commits = [] ∧ new.abortDecided 0 ∧
+    -- the same through `recordVoteInterleaved` (what the harness asks the driver for)
+    (c2.recordVoteInterleaved 0 1 (.yes 1 [2]) 5 .no (fun _ _ => false)).map (fun r => (r.2.1.toOption, r.2.2)) =
+      some (some (some Phase.aborting), none) := by
+  decide
+
+-- non-vacuity of `record_vote_interleaved_phases_never_decide_twice`: reachable states with a commit
+-- decision (both real votes, phase 3 in order, commit) resp. an abort decision (the race above)
+example : CReach (CSys.init 100 2) ((CSys.init 100 2).run raceRun) := creach_run .refl _
+example : ((CSys.init 100 2).run [ .begin 0 [0, 1], .voteP1 0 0 (.yes 0 [1]), .voteP1 0 1 (.yes 1 [2]),
+    .voteP3 0 raceSnap (fun _ _ => false), .commit 0, .voteP3 0 raceSnap (fun _ _ => true) ]).commits = [0] := by decide
+example : ¬ ((CSys.init 100 2).run [ .begin 0 [0, 1], .voteP1 0 0 (.yes 0 [1]), .voteP1 0 1 (.yes 1 [2]),
+    .voteP3 0 raceSnap (fun _ _ => false), .commit 0, .voteP3 0 raceSnap (fun _ _ => true) ]).abortDecided 0 := by decide
+-- `record_vote_phase3_keeps_decided_phase`: its hypothesis holds of the state after thread B
+example : ∀ t, findTx ((CSys.init 100 2).run (raceRun.take 4)).c.pending 0 = some t → t.phase ≠ .preparing := by
   decide
 
 /-! ### the two counter-traces over the EXTENDED alphabet (outside C03's quantifier) -/
